@@ -305,6 +305,18 @@ Proof.
   step; [apply G_should_install|]. rt.
 Qed.
 
+(* the download directory is not part of the disk: its steps preserve everything *)
+Lemma G_dstep : P (fun _ => True) dstep.
+Proof. unfold dstep. apply pres_mut; auto. Qed.
+
+Lemma G_download bdl : P (fun _ => True) (downloadM zdec base bdl).
+Proof.
+  unfold downloadM. step; [apply G_dstep|]. step; [apply G_dstep|]. step; [apply G_dstep|]. step; [apply G_dstep|].
+  destruct (inflate zdec base bdl) as [out|]; [|apply pres_fail].
+  step. { destruct (8192 <=? blen out); [apply G_dstep|rt]. }
+  step; [apply (pres_rd IS_gen)|]. rt.
+Qed.
+
 Lemma G_do_update r dl : P (fun _ => True) (do_updateM sha sigok zdec base c r dl).
 Proof.
   unfold do_updateM. step; [apply G_cs_copy|]. step; [apply G_cs_clear|].
@@ -315,8 +327,8 @@ Proof.
   step; [apply G_should_install|].
   destruct a2; try rt.
   destruct dl as [bdl|]; [|apply pres_fail].
-  destruct (inflate zdec base bdl) as [out|]; [|apply pres_fail].
-  destruct (hash_ok sha out (p_hash p)); [|apply pres_fail].
+  eapply pres_bind; [apply G_download|intros fileb _].
+  destruct (hash_ok sha fileb (p_hash p)); [|apply pres_fail].
   eapply pres_weaken; [|apply G_cs_install]. auto.
 Qed.
 
